@@ -384,6 +384,36 @@ func genEqualCase(r *rng, id string) *EqualCase {
 		}
 		// integers beyond 2^53 only in int64/uint64/json.Number: repNumber handles by exactness
 		a, b := instOf(repValue(r, d1, 0)), instOf(repValue(r, d2, 0))
+		if r.chance(1, 8) {
+			// two slices over one backing array: a prefix (or a suffix, or an empty reslice) of a
+			// slice against the slice itself - equal only when they have the same elements
+			n := 2 + r.intn(3)
+			full := make([]any, n, n+2)
+			for k := range full {
+				full[k] = repValue(r, pick(r, []Doc{DNum("1"), DNum("2"), DStr("a"), DNull{}}), 1)
+			}
+			var x, y any = full, full
+			switch r.intn(5) {
+			case 0:
+				x = full[:n-1]
+			case 1:
+				x = full[:0]
+			case 2:
+				x = full[1:]
+			case 3:
+				x = full[:n+1] // one nil element beyond the length
+			default:
+				typed := []string{"a", "b", "a"}
+				x, y = typed[:2], typed
+			}
+			if r.chance(1, 2) {
+				x, y = y, x
+			}
+			if r.chance(1, 3) {
+				x, y = map[string]any{"k": x}, map[string]any{"k": y}
+			}
+			a, b = instOf(x), instOf(y)
+		}
 		if a.Sx != b.Sx {
 			diffKinds++
 		}
